@@ -152,12 +152,37 @@ def deep_specs():
     out = []
     for pat, tail in (("81", "f6"), ("a100", "f6"), ("9f", "ff"), ("a1", "00"), ("d8", "00"), ("c1", "00"),
                       ("9a00010000", "f6"), ("bb0000000000000001", "00"), ("5f", "ff"), ("7f", "ff"), ("8181a100", "f6")):
-        for n in (100, 128, 129, 130, 200, 1000, 5000, 20000, 100000, 400000, 1048575):
+        for n in (128, 129, 1000, 20000, 1048575):
             cnt = n // (len(pat) // 2) if n > 1000 else n
             out.append(f"{pat}*{cnt}+{tail}")
             if n >= 100000:
                 out.append(f"{pat}*{cnt}")
     return out
+
+
+def eint(op, payload, lie=None):
+    ln = len(payload) if lie is None else lie
+    return b"EINT" + (op & 0xffffffff).to_bytes(4, "little") + (ln & 0xffffffff).to_bytes(4, "little") + payload
+
+
+EINT_FAMILY = {"abi-env-intent": "any", "abi-env-control": "control", "abi-env-import": "import",
+               "wasm-dispatch": "import", "wasm-control": "control"}
+
+
+def eint_spec(op, inner_spec, inner_len):
+    return (b"EINT" + op.to_bytes(4, "little") + inner_len.to_bytes(4, "little")).hex() + "+" + inner_spec
+
+
+def spec_len(sp):
+    n = 0
+    for part in sp.split("+"):
+        if part.startswith("r"):
+            n += int(part.split("x")[1])
+        elif "*" in part:
+            h, c = part.split("*"); n += len(h) // 2 * int(c)
+        elif part != "-":
+            n += len(part) // 2
+    return n
 
 
 # ----------------------------------------------------------------------------- model side (abi-cbor only)
@@ -266,9 +291,23 @@ def gen_abi_small(rng, n):
     return [(k, b) for k, b in out if len(b) <= MODEL_MAX]
 
 
-def gen_generic(rng, dec, seeds, n, cborish):
+def gen_generic(rng, dec, seeds, n, cborish, ops=None):
     """(kind, spec) for exploration decoders: random, seed mutations, CBOR adversarial, big."""
     out = []
+    fam = EINT_FAMILY.get(dec)
+    if fam and ops:
+        op = {"control": ops["control_op"], "import": ops["import_op"], "any": 77}[fam]
+        adv = adversarial_cbor()
+        for b in adv[::max(1, len(adv) // 150)]:
+            out.append(("eint-adversarial", hexs(eint(op, b))))
+        for _ in range(n // 4):
+            b, offs = gen_tree(rng)
+            if rng.random() < 0.6:
+                b = mutate(rng, b, offs)
+            r = rng.random()
+            lie = None if r < 0.8 else rng.choice([0, len(b) + 1, max(0, len(b) - 1), 0xffffffff, 0x7fffffff])
+            o2 = op if rng.random() < 0.85 else rng.choice([0, 1, 0xffffffff, ops["control_op"], ops["import_op"]])
+            out.append(("eint-cbor", hexs(eint(o2, b, lie))))
     for s in seeds:
         out.append(("seed", hexs(s)))
         for cut in sorted({0, 1, len(s) // 2, max(0, len(s) - 1)}):
@@ -311,8 +350,13 @@ def gen_generic(rng, dec, seeds, n, cborish):
     return out
 
 
-def big_specs(rng, seeds, cborish, tier):
+def big_specs(rng, dec, seeds, cborish, tier, ops=None):
     out = []
+    fam = EINT_FAMILY.get(dec)
+    if fam and ops:
+        op = {"control": ops["control_op"], "import": ops["import_op"], "any": 77}[fam]
+        for sp in deep_specs():
+            out.append(("eint-deep", eint_spec(op, sp, spec_len(sp))))
     for ln in (4096, 65536, 1 << 20):
         out.append(("big-random", f"r{rng.getrandbits(32)}x{ln}"))
         out.append(("big-ff", f"ff*{ln}"))
@@ -382,7 +426,10 @@ def run(tier, seed, replay=None):
     decoders = [l.strip() for l in out.splitlines() if l.strip()]
     rc, out = vf.sh([bins["c13"], "--seeds", str(seed)], timeout=300)
     seeds = collections.defaultdict(list)
+    ops = None
     for l in out.splitlines():
+        if l.startswith("meta "):
+            ops = {k: int(v) for k, v in (t.split("=", 1) for t in l.split()[1:])}
         if l.startswith("seed "):
             m = dict(t.split("=", 1) for t in l.split()[1:])
             seeds[m["dec"]].append(bytes.fromhex(m["hex"]) if m["hex"] != "-" else b"")
@@ -404,9 +451,9 @@ def run(tier, seed, replay=None):
         for dname in decoders:
             cborish = dname.startswith(("abi-", "edict", "scene", "wasm"))
             if dname != "abi-cbor":
-                for k, sp in gen_generic(r.rng, dname, seeds[dname], n_gen, cborish):
+                for k, sp in gen_generic(r.rng, dname, seeds[dname], n_gen, cborish, ops):
                     cases.append(f"dec={dname} in={sp}"); kinds.append(k)
-            for k, sp in big_specs(r.rng, seeds[dname], cborish, tier):
+            for k, sp in big_specs(r.rng, dname, seeds[dname], cborish, tier, ops):
                 cases.append(f"dec={dname} in={sp}"); kinds.append(k)
     try:
         impl = harness_run(bins, "c13", cases)
